@@ -9,6 +9,7 @@ anything the real router did not ask, the lookup misses and the result differs (
 
   router reset <defaultFee>
   router setdefault <fee> | setfee <dIn> <dOut> <fee> | fee <dIn> <dOut> | wl <addr,addr|->
+  router exportimport                    -> ok | panic   (poolmanager ExportGenesis -> InitGenesis, fee configuration part)
   router in  <sender> <dIn> <amount> <minOut> <steps> <ex>
   router out <sender> <dOut> <amount> <maxIn> <steps> <est> <ex>
   router estin <applyFee 0|1> <dIn> <amount> <steps> <est>
@@ -18,6 +19,7 @@ anything the real router did not ask, the lookup misses and the result differs (
 steps = pool:denom,…   ex = pool:dIn:dOut:arg:(e | out:taken | in:delivered),…   est = at:pool:dIn:dOut:arg:(e|res),…
 -/
 import OsmoVerif.Model.Router
+import OsmoVerif.Model.PoolManagerGenesis
 namespace OsmoVerif.Router
 
 structure Entry where
@@ -157,6 +159,12 @@ def stepRouter (c : FeeCfg) (op : String) (args : List String) : FeeCfg × Strin
     | none => (c, "bad-op")
   | "fee", [d0, d1] => (c, s!"ok {getTradingPairTakerFee c d0 d1}")
   | "wl", [l] => ({ c with whitelist := if l = "-" then [] else l.splitOn "," }, "ok")
+  -- C19: x/poolmanager ExportGenesis -> store wiped -> InitGenesis (Model/PoolManagerGenesis) as far as this engine's state (the
+  -- taker-fee configuration) goes: an override equal to the default taker fee is dropped; `panic` = InitGenesis rejects the params
+  | "exportimport", [] =>
+    match pmExportImport { cfg := c } with
+    | some t => (t.cfg, "ok")
+    | none => (c, "panic")
   | "in", [sender, dIn, amt, minOut, steps, ex] =>
     match amt.toInt?, minOut.toInt?, parseList parseStepIn steps, parseList parseEx ex with
     | some amt, some minOut, some steps, some ex =>
